@@ -46,20 +46,17 @@ Definition table_ok2 (T : tables) : bool :=
 Definition pR (old : list tree) (p p' : pstate) : Prop := stack p = stack p' /\ code p = code p' ++ old.
 
 Lemma push_val_R old p p' t : pR old p p' -> pR old (push_val p t) (push_val p' t).
-Proof. intros [Hs Hc]. unfold push_val. rewrite Hs. destruct (stack p'); cbn; split; try reflexivity; try assumption. rewrite Hc. reflexivity. Qed.
-Lemma push_token_R old p p' tok : pR old p p' -> pR old (push_token p tok) (push_token p' tok).
 Proof.
-  intros H. unfold push_token. destruct (is_t tok); [apply push_val_R; exact H|]. destruct (is_nil_tok tok); [apply push_val_R; exact H|].
-  pose proof H as [Hs Hc]. rewrite Hs. destruct (stack p') as [|[k|w|t] rest]; try (apply push_val_R; exact H).
-  destruct rest; cbn; split; try reflexivity; try assumption. rewrite Hc. reflexivity.
+  intros [Hs Hc]. unfold push_val. rewrite Hs. destruct (wrap_marks (stack p') t) as [st t'].
+  destruct st; cbn; split; try reflexivity; try assumption. rewrite Hc. reflexivity.
 Qed.
+Lemma push_token_R old p p' tok : pR old p p' -> pR old (push_token p tok) (push_token p' tok).
+Proof. intros H. unfold push_token. apply push_val_R; exact H. Qed.
 Lemma close_list_R old p p' : pR old p p' ->
   match close_list p, close_list p' with inl q, inl q' => pR old q q' | inr e, inr e' => e = e' | _, _ => False end.
 Proof.
   intros [Hs Hc]. unfold close_list. rewrite Hs. destruct (pop_to_open (stack p') []) as [[[k items] below]|]; [|reflexivity].
-  destruct k; try (destruct below; cbn; split; try reflexivity; try assumption; rewrite Hc; reflexivity).
-  destruct below as [|[k|w|t] below]; cbn; try (split; try reflexivity; try assumption; rewrite Hc; reflexivity).
-  destruct below; cbn; split; try reflexivity; try assumption; rewrite Hc; reflexivity.
+  apply push_val_R. split; [reflexivity|exact Hc].
 Qed.
 
 Definition R (old : list tree) (c c' : core) : Prop :=
@@ -255,22 +252,13 @@ Proof.
 Qed.
 
 Lemma push_val_code p t : code p = [] -> code (push_val p t) = [] \/ stack (push_val p t) = [].
-Proof. intros Hc. unfold push_val. destruct (stack p); cbn; [right; reflexivity|left; exact Hc]. Qed.
+Proof. intros Hc. unfold push_val. destruct (wrap_marks (stack p) t) as [st t']. destruct st; cbn; [right; reflexivity|left; exact Hc]. Qed.
 Lemma push_token_code p tok : code p = [] -> code (push_token p tok) = [] \/ stack (push_token p tok) = [].
-Proof.
-  intros Hc. unfold push_token. destruct (is_t tok); [apply push_val_code; exact Hc|]. destruct (is_nil_tok tok); [apply push_val_code; exact Hc|].
-  destruct (stack p) as [|[k|w|t] rest] eqn:Es; try (apply push_val_code; exact Hc).
-  destruct rest; cbn; [right; reflexivity|left; exact Hc].
-Qed.
+Proof. intros Hc. unfold push_token. apply push_val_code; exact Hc. Qed.
 Lemma close_list_code p q : code p = [] -> close_list p = inl q -> code q = [] \/ stack q = [].
 Proof.
   intros Hc. unfold close_list. destruct (pop_to_open (stack p) []) as [[[k items] below]|]; [|discriminate].
-  destruct k.
-  - destruct below as [|[k|w|t] below]; try (intros H; injection H as <-; cbn; first [right; reflexivity|left; exact Hc]).
-    destruct below; intros H; injection H as <-; cbn; first [right; reflexivity|left; exact Hc].
-  - destruct below; intros H; injection H as <-; cbn; first [right; reflexivity|left; exact Hc].
-  - destruct below; intros H; injection H as <-; cbn; first [right; reflexivity|left; exact Hc].
-  - destruct below; intros H; injection H as <-; cbn; first [right; reflexivity|left; exact Hc].
+  intros H; injection H as <-. apply push_val_code. exact Hc.
 Qed.
 Lemma emit_code c k lex : code (c_p c) = [] -> c_err c = None -> c_err (emit c k lex) = None ->
   code (c_p (emit c k lex)) = [] \/ clean (emit c k lex).
